@@ -88,6 +88,17 @@ def generate(rng, tier, index):
             ops += [driver.gen_op(rng, recipe, "train_steps", allow, p_each)]
         ops.append(gen_crash(rng, how))
         ops.append(driver.gen_op(rng, recipe, "predict", allow, p_each))
+    if index % 8 == 5:
+        # stratified rollback pattern: the state at the save point differs from the later state only in part
+        ops.append(driver.gen_op(rng, recipe, "predict", allow, p_each))  # the model has been used (initialised) before
+        ops.append({"op": "save_point", "seed": rng.randrange(1 << 30)})
+        ops.append({"op": "train"})
+        pop = driver.gen_op(rng, recipe, "perturb", allow, p_each)
+        pop["scope"] = rng.choice(["hypers", "hypers", "all"])
+        ops.append(pop)
+        pr = driver.gen_op(rng, recipe, "predict", allow, p_each)
+        ops.append(pr)
+        ops.append({"op": "rollback", "which": 0, "seed": rng.randrange(1 << 30)})
     while len(ops) < max_len:
         k = core.weighted_choice(rng, items)
         if k == "crash":
